@@ -599,25 +599,47 @@ def check_C20(ctx):
 # ------------------------------------------------------------------------------------------------
 # C14 / C15 (AnchorStore)
 # ------------------------------------------------------------------------------------------------
+def c14_matchers():
+    def parts(d):
+        c = (d.get("rec") or {}).get("container", "")
+        return c.split("/") if c.count("/") == 2 else None
+    def block_scalar(rec, d):
+        p = parts(d)
+        return bool(p) and p[1] in ("str-lines", "str-long")
+    def variant_in_flow(rec, d):
+        p = parts(d)
+        return bool(p) and p[0] == "flow-seq" and p[1] in ("enum-newtype", "enum-tuple", "enum-struct")
+    def empty_braces_off(rec, d):
+        p = parts(d)
+        return bool(p) and p[1] in ("seq-empty", "map-empty") and p[2].startswith("m") and p[2][1:].isdigit() and int(p[2][1:]) & 4 != 0
+    return {"C14-block-scalar-anchor-leaks": block_scalar, "C14-variant-payload-inside-flow": variant_in_flow, "C14-empty-as-braces-off": empty_braces_off}
+
+
 def check_C14(ctx):
     q = ctx.quick()
     cases = ctx.path("cases.ndjson")
     run_mc(ctx, "MC_AnchorStore", dict(MaxAllocs=3, MaxFields=4 if q else 5, ScopeSaves=True, MaxCalls=0),
-           ["InvSharing", "InvWeakFirstIsError", "EmitCase"], workers=8, timeout=3000, cases_out=cases, label="MC_AnchorStore_sharing")
+           ["InvSharing", "InvEmitOnce", "InvWeakFirstIsError", "EmitCase"], workers=8, timeout=3000, cases_out=cases, label="MC_AnchorStore_sharing")
     ctx.exhaustive = True
     recs = ctx.path("recs.ndjson")
     st = run_vh(ctx, ["c14", "--cases", cases, "--out", recs, "--random", 500 if q else 20000, "--seed", ctx.seed, "--chain", 3 if q else 4, "--dags", 400 if q else 20000])
     ctx.evaluations += st["records"]
     ctx.distinct_nontrivial += st["nontrivial"]
     ctx.samples += st["samples"]
+    ctx.notes["payload_family_records"] = st.get("payload_records", 0)
     mism = run_tv(ctx, "TV_AnchorStore", recs, timeout=3000)
-    classify_mismatches(ctx, [(m[0], {"verdict": m[1]["verdict"], "rec": m[1]["rec"]}, m[2], m[3]) for m in mism], None, {},
-                        "pointer-equality classes after the round trip differ from AnchorStore!SameSharing")
+    classify_mismatches(ctx, [(m[0], {"verdict": m[1]["verdict"], "rec": m[1]["rec"]}, m[2], m[3]) for m in mism], None, c14_matchers(),
+                        "pointer-equality classes after the round trip differ from AnchorStore!SameSharing, a payload changed, or a shared node was not emitted exactly once")
     return finish(ctx, "model_checking",
                   "graphs: every list of <= 4/5 fields (strong / weak / dangling weak) over 3 allocations enumerated by TLC, each built from "
                   "Rc wrappers in a sequence, a map and a struct and from Arc wrappers in a sequence, plus random graphs of <= 9 fields; "
                   "recursive wrappers: every parent chain of length <= 3/4 with every choice of back edge (to any ancestor, itself, or "
-                  "none) through Option<RcRecursion>; compared by pointer-equality classes; non-trivial = graphs in which two fields share",
+                  "none) through Option<RcRecursion>; compared by pointer-equality classes; payload family: a rotating seventh (quick) of "
+                  "the enumerated field lists x 19 payload kinds (plain / quoted / multi-line / long / empty string, int, bool, option, sequence, "
+                  "empty and nested sequence, map, empty map, unit / newtype / tuple / struct variant, tuple, struct) x 5 parent positions "
+                  "(enum-wrapped item, direct item, map value, optional struct field, flow sequence) x default + one rotating option set, "
+                  "checked for sharing classes, payload equality and the number of anchors / aliases in the text (AnchorStore!DefCount / "
+                  "AliasCount); non-trivial = graphs in which two fields share",
                   ASSUME_COMMON + ["graphs with a weak field before its strong owner are outside the documented domain (the model shows "
                                    "they cannot be read back) and are skipped"])
 
